@@ -101,7 +101,12 @@ ASSUMPTIONS = [
 UNPROVED = (
     "PARTIAL. (a),(c1) are proved on parsed components (normParts of ANY re-parse of canonComps(p) = normParts p, whatever "
     "default protocol canonicalisation assumed) in both modes — quoted=True for QuotedClean inputs, the exclusion of the "
-    "KF-C02-1 family, which really fails (witness in Props/C03.lean, KF-C03-4) — for paths that are empty or absolute "
+    "KF-C02-1 family, which really fails (witness in Props/C03.lean, KF-C03-4); QuotedClean reads the regenerated unsafe sets, so "
+    "Props/C03Requote.lean derives it from a FIXED exclusion (QuotedDelimFree: no raw '=' inside a query value, no raw '#' in "
+    "the query, '?'/'#' in the path, no control character) through the table obligation unsafe_sets_requote_safe (every byte "
+    "of UNSAFE_FOR_PATH / _QUERY_ITEM / _FRAGMENT is in the regenerated safe set of safely_quote, or is the space / '%', or a "
+    "delimiter of its component) and restates (c1)/(a) under it (normalize_canonicalize_quoted_partial, "
+    "normalize_of_canon_eq_quoted_partial): a table edit cannot widen the exclusion, it breaks the obligation — for paths that are empty or absolute "
     "(every URL with an authority), under PunyLaws (PathHyp — three normpath facts — is discharged from "
     "Lemmas/Normpath.lean); platform_aware and the redirect "
     "step act on the string before parsing and are outside the theorems. (b) is proved (SortHyp — the query sort "
